@@ -37,7 +37,7 @@ def codec(name, np_, nf, kind, sof):
 
 def step(name, k, sof):
     uw = dict(EP)
-    uw.update({"harness": k + 2, "rfc1055_decode": k + 2})
+    uw.update({"harness": k + 2, "ref_call": k + 2, "judge": k + 2, "rfc1055_decode": k + 2})
     return mk(name, "C12/c12_step.c", SCRIPTED, {"K": k, "SOF": sof},
               unwind=uw, default_unwind=3, fp_removal=True, replay_units=RU)
 
